@@ -193,6 +193,19 @@ impl TypeAggregator {
         // Merge the interface's exports
         for (name, source_kind) in &types[id].exports {
             if let Some(target_kind) = self.types[existing].exports.get(name).copied() {
+                // Instance exports are requirements themselves: merge them (union of
+                // their exports) instead of picking one of the two
+                if let (ItemKind::Instance(target_id), ItemKind::Instance(source_id)) =
+                    (target_kind, *source_kind)
+                {
+                    if target_id != existing {
+                        self.merge_interface(target_id, types, source_id, checker)
+                            .with_context(|| format!("mismatched type for export `{name}`"))?;
+                        self.remapped.insert(source_kind.ty(), target_kind.ty());
+                        continue;
+                    }
+                }
+
                 // If the source kind is already a subtype of the target, do nothing
                 if checker
                     .is_subtype(*source_kind, types, target_kind, &self.types)
